@@ -13,7 +13,7 @@ Theorem C29_internal_unreachable : forall (req : request) (w : world),
   let res := handle req w in
   Forall (fun p : kgname * stmt => fst p <> internal_kg /\ names_internal (snd p) = false) (d_trace res) /\
   kg_content (d_world res) internal_kg = kg_content w internal_kg /\
-  (q_cur req <> internal_kg -> d_bound res <> Some internal_kg) /\
+  (q_bound req <> Some internal_kg -> d_bound res <> Some internal_kg) /\
   (q_cur req = internal_kg -> d_dec res = Denied).
 Proof. exact handle_no_internal. Qed.
 
@@ -30,7 +30,7 @@ Lemma C29_refuted_multiline :
     kg_content (d_world (handle_pinned req w)) internal_kg <> kg_content w internal_kg /\
     d_bound (handle_pinned req w) = Some internal_kg.
 Proof.
-  exists (Req RViewer 3 true 1 None [Some (St MKgUse (Some 0) ENone 0 None); Some (St SInsert None (EIns 203) 0 None)]),
+  exists (Req RViewer 3 (Some 1) 1 None [Some (St MKgUse (Some 0) ENone 0 None); Some (St SInsert None (EIns 203) 0 None)]),
          (World [(0, []); (1, [MT; MF 100])] [(1, 3, KViewer)]).
   vm_compute. repeat split; congruence.
 Qed.
@@ -38,9 +38,9 @@ Qed.
 (* non-vacuity: a non-admin request that is executed (and switches KG) satisfies the hypotheses *)
 Example C29_nonvacuous :
   let w := World [(0, []); (1, [MT]); (2, [MT])] [(1, 3, KViewer); (2, 3, KEditor)] in
-  let req := Req RViewer 3 true 1 None [Some (St MKgUse (Some 2) ENone 0 None)] in
+  let req := Req RViewer 3 (Some 1) 1 None [Some (St MKgUse (Some 2) ENone 0 None)] in
   q_role req <> RAdmin /\ d_dec (handle req w) = Ran /\ d_bound (handle req w) = Some 2 /\
-  d_dec (handle (Req RViewer 3 true 1 None [Some (St MKgUse (Some 0) ENone 0 None)]) w) = Denied.
+  d_dec (handle (Req RViewer 3 (Some 1) 1 None [Some (St MKgUse (Some 0) ENone 0 None)]) w) = Denied.
 Proof. vm_compute. repeat split; congruence. Qed.
 
 Print Assumptions C29_internal_unreachable.
